@@ -860,6 +860,19 @@ func main() {
 				}
 			}
 		}
+		// ... and counters kept in the map: concurrent increments of one key are all counted
+		{
+			m := collections.NewTTLMap(64)
+			per := N/2 + 50
+			parallel(G, per, func(gi, i int) {
+				if _, err := m.Increment("hits", 1, 3600); err != nil {
+					fail("TTLMap: Increment failed: %v", err)
+				}
+			})
+			if v, _, _ := m.GetInt("hits"); v != G*per {
+				fail("TTLMap: %d goroutines x %d increments of one key: the counter reads %d, want %d", G, per, v, G*per)
+			}
+		}
 		clock.Unfreeze()
 	}
 
